@@ -21,8 +21,6 @@ decreasing_by all_goals simp_wf <;> omega
 def quad (c : Chain) (t : Int) (k : Nat) : List (Nat × Nat) :=
   (List.range k).flatMap fun i => ((List.range k).filter fun j => i ≤ j ∧ at' c i + at' c j = t).map fun j => (i, j)
 
-#eval twoPtr [1,2,3,4,5,6] 7 0 6
-#eval quad [1,2,3,4,5,6] 7 6
 
 def StrictAsc (c : Chain) (k : Nat) : Prop := ∀ i j, i < j → j < k → at' c i < at' c j
 
